@@ -103,7 +103,7 @@ impl Prop for C02P {
         vec![Profile::Chk, Profile::Wrap]
     }
     fn units(&self, tier: Tier) -> Vec<String> {
-        let n = tier.pick(4, 5);
+        let n = tier.pick(4, 6);
         let mut v = Vec::new();
         for (c, r) in shapes(n) {
             v.push(format!("O {}x{}", c, r));
@@ -156,7 +156,7 @@ impl Prop for C02P {
             .into()
     }
     fn bound(&self, tier: Tier) -> String {
-        format!("shapes and parents up to {0}x{0}, all windows; nested windows of parents up to {1}x{1}", tier.pick(4, 5), tier.pick(3, 4))
+        format!("shapes and parents up to {0}x{0}, all windows; nested windows of parents up to {1}x{1}", tier.pick(4, 6), tier.pick(3, 4))
     }
 }
 
